@@ -9,7 +9,8 @@ EXTENDS SchemaDetect, Json, IOUtils, TLC
 VARIABLE l
 Log == ndJsonDeserialize(IOEnv.TRACE)
 
-St(r) == [t |-> <<r.maj, r.min, r.pat>>, variant |-> r.variant, legacy |-> r.legacy, db2 |-> r.db2]
+St(r) == [t |-> <<r.maj, r.min, r.pat>>, variant |-> r.variant, legacy |-> r.legacy, db2 |-> r.db2,
+          legacyE |-> ("legacy_empty" \in DOMAIN r /\ r.legacy_empty), db2E |-> ("db2_empty" \in DOMAIN r /\ r.db2_empty)]
 
 \* Known finding: a 3.0.0 library is accepted although 3.0.0 is not among the supported versions
 \* (detect_schema maps it, the rejection in load_database is commented out, and the pinned test suite
